@@ -281,6 +281,8 @@ class C15(Prop):
         env = {"MAX_PATH_LEN": macro(fu, "file_utils.c", "MAX_PATH_LEN"),
                "MAX_FNAME_SIZE": macro(fu, "file_utils.c", "MAX_FNAME_SIZE"),
                "MAXFNAME": macro(edh, "ed.h", "MAXFNAME")}
+        lx = src("lib/lpc/lex.c")
+        b_io = body(lx, "lex.c", "inc_open")
         bn = src("lib/lpc/program/binaries.c")
         b_sb, b_lb = body(bn, "binaries.c", "save_binary"), body(bn, "binaries.c", "load_binary")
         b_gd, b_rn, b_cp, b_fn, b_es = (body(fu, "file_utils.c", "get_dir"), body(fu, "file_utils.c", "do_rename"),
@@ -310,6 +312,13 @@ class C15(Prop):
                   ("getfn", b_fn, "strlen (file2) >= MAXFNAME"),
                   ("getfn", b_fn, "strncpy (file, ret->u.string, sizeof file - 1)"),
                   ("ed_start", b_es, "strncpy (P_FNAME, file_arg, MAXFNAME - 1)"),
+                  # inc_open: what is normalised, what is tested, what the ".." scan runs over, what the fallback opens
+                  ("inc_open", b_io, "inc_lexically_normal (current_file, name, buf)"),
+                  ("inc_open", b_io, "legal_path (buf)"),
+                  ("inc_open", b_io, "strlen (current_file) + strlen (name) + 2 > INC_BUF_SIZE"),
+                  ("inc_open", b_io, "strlen (inc_list[i]) + strlen (name) + 2 > INC_BUF_SIZE"),
+                  ("inc_open", b_io, "for (p = strchr (name, '.'); p; p = strchr (p + 1, '.'))"),
+                  ("inc_open", b_io, 'sprintf (buf, "%s/%s", inc_list[i], name)'),
                   ("save_binary", b_sb, "strlen (CONFIG_STR (__SAVE_BINARIES_DIR__)) + strlen (prog->name) + 2 > sizeof (file_name_buf)"),
                   ("load_binary", b_lb, "strlen (CONFIG_STR (__SAVE_BINARIES_DIR__)) + strlen (name) + 2 > sizeof (file_name_buf) / 2"),
                   ("load_binary", b_lb, "strlen (CONFIG_STR (__SAVE_BINARIES_DIR__)) + strlen (buf) + 2 > sizeof (file_name_buf) / 2")]
